@@ -78,6 +78,11 @@ def gen(rng, kind, tier):
         if rng.random() < 0.05:
             b["pos"] = list(a["pos"])
         case = {"a": a, "b": b, "route_a": common.pick_route(rng, 0.6), "route_b": common.pick_route(rng, 0.6)}
+        if kind == "pair" and rng.random() < 0.04 and a["radius"] + b["radius"] > 0:
+            case["a"], case["b"] = dict(a, cls="SphericalDroplet", width=None), dict(b, cls="SphericalDroplet", width=None)
+            case["user_class"] = "ByDiameter"  # operands of a class the user derived from SphericalDroplet
+            case["route_a"] = case["route_b"] = "ctor"
+            return case
         if kind == "pair" and rng.random() < 0.05:
             # a spherical droplet absorbs a diffuse one: the second operand is an instance of the first one's class
             # (a diffuse droplet *is* a spherical droplet with one more parameter), so volume and centre are defined
@@ -105,7 +110,34 @@ def _state(d):
     return np.asarray(d.position, float).copy(), float(d.radius), (float("nan") if w is None else float(w))
 
 
+def judge_user_class(case, rec):
+    """Two droplets of a user-defined subclass (constructed from their diameter) merge like any spherical droplets."""
+    from . import usercls
+
+    da, db = case["a"], case["b"]
+    a = usercls.ByDiameter(np.asarray(da["pos"], float), 2 * da["radius"])
+    b = usercls.ByDiameter(np.asarray(db["pos"], float), 2 * db["radius"])
+    dim = a.dim
+    (pa, ra, _), (pb, rb, _) = _state(a), _state(b)
+    Va, Vb = vol(ra, dim), vol(rb, dim)
+    com = (Va * pa + Vb * pb) / (Va + Vb)
+    scale = max(float(np.abs(pa).max()), float(np.abs(pb).max()), 1e-300)
+    label = f"ByDiameter droplets a={da} b={db}"
+    for name, kw in (("merge", {}), ("merge(inplace)", {"inplace": True})):
+        x = usercls.ByDiameter(np.asarray(da["pos"], float), 2 * da["radius"])
+        c = common.monitored(rec, name, x.merge, b, **kw)
+        if rec.check(c.ok, "no-exception", f"{name} of two droplets of a user-defined subclass raised {common.exc_text(c.exc) if c.exc else ''}; {label}"):
+            pm, rm, _ = _state(c.result)
+            rec.check(type(c.result) is usercls.ByDiameter, "class", f"{name} returned {type(c.result).__name__}; {label}")
+            rec.check(abs(vol(rm, dim) - Va - Vb) <= 1e-12 * (Va + Vb) and bool(np.all(np.abs(pm - com) <= 1e-12 * scale)), "volume-additive",
+                      f"{name}: volume {vol(rm, dim)!r} at {pm.tolist()}, expected {Va + Vb!r} at {com.tolist()}; {label}")
+    rec.count("operands_of_a_user_defined_subclass")
+    rec.evaluated(nontrivial=(Va != Vb) and bool(np.any(pa != pb)))
+
+
 def judge_pair(case, rec, compiled=None):
+    if case.get("user_class"):
+        return judge_user_class(case, rec)
     ra_, rb_ = case.get("route_a"), case.get("route_b")
     a, b = _mk(case["a"], ra_), _mk(case["b"], rb_)
     dim = a.dim
